@@ -117,13 +117,187 @@ def jsonable(x):
     return x
 
 
+PAIR_STATS = collections.Counter()
+
+
+def _adapter_modules(mod):
+    mods = [mod]
+    for name, m in list(sys.modules.items()):
+        if name.startswith("props.") and m is not None and m is not mod:
+            mods.append(m)
+    return mods
+
+
+def _as_list(c):
+    if c is None:
+        return []
+    if isinstance(c, (list, tuple)):
+        return [x for x in c if x is not None]
+    return [c]
+
+
+def make_pair(mod, spec):
+    """history case (see pwlib/share.py): the implementation is called on `first`, then on `second` with the caller's
+    objects reused; the result of the second call is compared with the model's answer for `second` alone."""
+    from . import share
+    first, second = spec["first"], spec["second"]
+    fresh = _as_list(mod.make(second))
+    out = []
+    for k, b0 in enumerate(fresh):
+        if b0.model_only:
+            continue
+
+        seen = []
+
+        def impl(k=k, seen=seen):
+            # both calls *and* both oracle evaluations run inside the scope: several oracles call the library again
+            # on their own copies of the inputs, and those copies are pooled per call site like the adapter's
+            del seen[:]
+            with share.scope(_adapter_modules(mod), getattr(mod, "SHARE_VALUE_CLASSES", share.VALUE_CLASSES)) as pool:
+                try:
+                    for a in _as_list(mod.make(first)):
+                        if not a.model_only:
+                            ra = canon.call(a.impl)
+                            if a.oracle is not None and ra is not None:
+                                a.oracle(ra)
+                except Exception:
+                    pass
+                pool.scribble()
+                pool.phase = 1
+                b = _as_list(mod.make(second))[k]
+                try:
+                    rb = b.impl()
+                    if b.oracle is not None:
+                        try:
+                            seen.extend(b.oracle(("ok", rb)) or [])
+                        except Exception:
+                            pass
+                    return rb
+                finally:
+                    PAIR_STATS.update(pool.stats)
+
+        def oracle(r, b0=b0, seen=seen):
+            out = list(seen)
+            if b0.oracle is not None:
+                out += [v for v in (b0.oracle(r) or []) if v not in out]
+            return out
+        pspec = dict(spec)
+        if len(fresh) > 1:
+            pspec["index"] = k
+        out.append(Case(pspec, b0.line, impl, mode=b0.mode, klass="pair:" + b0.klass, trivial=b0.trivial,
+                        oracle=oracle, compare=b0.compare, scale=b0.scale, rtol=b0.rtol))
+    if "index" in spec:
+        out = [c for c in out if c.spec.get("index") == spec["index"]]
+    return out
+
+
+def _shape_sig(x):
+    if isinstance(x, list):
+        return ("L", len(x), _shape_sig(x[0]) if x else None)
+    if isinstance(x, dict):
+        return ("D",) + tuple(sorted(x))
+    return type(x).__name__
+
+
+def _is_num_array(x):
+    if isinstance(x, bool):
+        return False
+    if isinstance(x, (int, float)):
+        return True
+    return isinstance(x, list) and len(x) > 0 and all(_is_num_array(y) for y in x)
+
+
+def _num_paths(x, path=()):
+    """paths of the maximal number-only sub-arrays of a spec"""
+    if _is_num_array(x):
+        return [path]
+    out = []
+    if isinstance(x, dict):
+        for k in sorted(x):
+            if k != "op":
+                out += _num_paths(x[k], path + (k,))
+    elif isinstance(x, list):
+        for i, y in enumerate(x):
+            out += _num_paths(y, path + (i,))
+    return out
+
+
+def _get(x, path):
+    for k in path:
+        if isinstance(x, dict):
+            if k not in x:
+                return None
+        elif isinstance(x, list):
+            if not isinstance(k, int) or k >= len(x):
+                return None
+        else:
+            return None
+        x = x[k]
+    return x
+
+
+def _set(x, path, v):
+    for k in path[:-1]:
+        x = x[k]
+    x[path[-1]] = v
+
+
+def _shift(x, rng, k):
+    """same shape, other numbers: floats moved by a multiple of their own size, small ints in coordinate lists by k"""
+    if isinstance(x, bool) or not isinstance(x, (int, float, list)):
+        return x
+    if isinstance(x, float):
+        return x + k * (abs(x) if x != 0 else 1.0) * 0.5 if x == x and abs(x) != float("inf") else x
+    if isinstance(x, int):
+        return x + k
+    return [_shift(y, rng, k) for y in x]
+
+
+def variant_of(spec, other, rng):
+    """case A of a pair: B with some of its number arrays replaced -- by the same entry of another spec of the same op
+    when the shapes agree, else by shifted numbers of the same shape.  Validity of A is not required."""
+    a = json.loads(json.dumps(spec))
+    paths = _num_paths(a)
+    if not paths or rng.random() < 0.2:
+        return a                                    # the very same call twice
+    rng.shuffle(paths)
+    n = rng.randint(1, max(1, len(paths) - 1))
+    for p in paths[:n]:
+        cur = _get(a, p)
+        alt = _get(other, p) if other is not None else None
+        if alt is not None and _shape_sig(alt) == _shape_sig(cur) and alt != cur and rng.random() < 0.6:
+            _set(a, p, json.loads(json.dumps(alt)))
+        else:
+            _set(a, p, _shift(cur, rng, rng.choice([1, -1, 2, 3])))
+    return a
+
+
+def pair_specs(specs, rng, tier):
+    """history cases derived from the generated specs: about one in eight, at most 400 (quick) / 2000 (thorough)"""
+    by_op = collections.defaultdict(list)
+    for s in specs:
+        if isinstance(s, dict) and s.get("op") != "pair":
+            by_op[s.get("op")].append(s)
+    cap = 400 if tier == "quick" else 2000
+    pool = [s for s in specs if isinstance(s, dict) and s.get("op") != "pair"]
+    if not pool:
+        return []
+    n = min(cap, max(20, len(pool) // 8), len(pool))
+    out = []
+    for s in rng.sample(pool, n):
+        peers = by_op[s.get("op")]
+        other = rng.choice(peers) if len(peers) > 1 else None
+        out.append({"op": "pair", "first": variant_of(s, other, rng), "second": s})
+    return out
+
+
 def evaluate(mod, specs, stats, collect_samples=3):
     """run impl + model on specs -> (mismatches, oracle_violations, samples)"""
     cases = []
     adapter_failures = []
     for s in specs:
         try:
-            c = mod.make(s)
+            c = make_pair(mod, s) if s.get("op") == "pair" and "second" in s else mod.make(s)
         except Exception:
             # On the unchanged tree every spec builds (checked by the clean runs); an adapter that fails now fails
             # because the code under test behaves differently while the case is being set up (constructors raising /
@@ -139,9 +313,16 @@ def evaluate(mod, specs, stats, collect_samples=3):
         else:
             cases.append(c)
     impl_res = []
+    intern = bool(getattr(mod, "INTERN_WITHIN_CASE", False))
     for c in cases:
         if c.model_only:
             impl_res.append(None)
+        elif intern and not c.klass.startswith("pair:"):
+            # operation programs: arguments with equal values built at the same adapter call site are one object, as for
+            # a caller that passes its `look` vector to two steps (pwlib/share.py, single phase: nothing is overwritten)
+            from . import share
+            with share.scope(_adapter_modules(mod), getattr(mod, "SHARE_VALUE_CLASSES", share.VALUE_CLASSES)):
+                impl_res.append(canon.call(c.impl))
         else:
             impl_res.append(canon.call(c.impl))
     # model runs
@@ -224,6 +405,8 @@ def run_check(mod, tier, seed, replay=None):
     else:
         corpus = load_corpus(prop)
         specs = list(mod.gen(rng, tier))
+        if getattr(mod, "PAIRS", True):
+            specs = specs + pair_specs(corpus + specs, random.Random(rng.random()), tier)
     all_specs = corpus + specs
     mismatches, violations, samples = evaluate(mod, all_specs, stats)
 
@@ -307,6 +490,7 @@ def run_check(mod, tier, seed, replay=None):
                 "oracle_violations": len(violations),
                 "known_findings_replayed": list(known_hit.keys()),
                 "exhaustive": bool(getattr(mod, "EXHAUSTIVE", {}).get(tier, False)),
+                "history_pairs": dict(PAIR_STATS, cases=sum(v for k, v in stats["classes"].items() if k.startswith("pair:"))),
             },
             "assumptions": list(getattr(mod, "ASSUMPTIONS", [])),
             "wall_s": round(wall, 2),
